@@ -177,6 +177,21 @@ def run_real(rng):
 
 def run_synth(rng):
     d = gen.gen_diff(rng, maxlen=rng.choice([40, 90]), simple_paths=True)
+    near_limit = None
+    if rng.random() < 0.35:
+        # lines whose text is just below / at / above the maximum line length: the colour sequences of the
+        # coloured variant must not count towards the limit
+        near_limit = rng.choice([120, 150, 200])
+        for s_ in d.sections:
+            for h in s_.hunks:
+                new = []
+                for kk, t in h.lines:
+                    if kk in '+- ' and rng.random() < 0.5:
+                        want = near_limit - rng.randint(-3, 22) - 1
+                        t = (t + ' ' + 'w0rd ' * 60)[:max(1, want)].rstrip() or 'x'
+                        t = t.replace('\t', ' ')
+                    new.append((kk, t))
+                h.lines = new
     crlf = rng.random() < 0.1
     rl = d.role_lines()
     if crlf:
@@ -186,6 +201,9 @@ def run_synth(rng):
     variant['reset'] = rng.choice(['m', '0m'])
     colored = colorize_variant(rl, variant, rng)
     opts, meta, view = options_for_equality(rng)
+    if near_limit:
+        opts['--max-line-length'] = near_limit
+        meta['classes'] = meta['classes'] + ['near-max-line-length']
     vtag = '+'.join(sorted(k for k in VARIANT_KEYS if variant[k])) + ':' + variant['reset'] + (':crlf' if crlf else '')
     sets = {'sub': ['synthetic'], 'views': [view], 'colour_layouts': [vtag], 'option_classes': meta['classes']}
     counters = {'pairs': 1, 'input_lines': len(lines)}
